@@ -328,9 +328,10 @@ class Integer(Object, int):
                 strip_digit_separators(number),
                 **(
                     {"base": 0}
-                    if isinstance(number, str) and not number.isdigit()
-                    # `not number.isdigit()` is necessary because `base = 0`
-                    # fails on decimal integers starting with a leading 0.
+                    if isinstance(number, str)
+                    and not strip_digit_separators(number).lstrip("+-").isdigit()
+                    # This test is necessary because `base = 0` fails on
+                    # decimal integers starting with a leading 0.
                     else {}
                 ),
             ),
